@@ -65,3 +65,165 @@ Definition check_multiarch (c : mcase) : list string :=
         List.map (fun t => String.append "viol:" (String.append t "/multiarch-build"))
                  (nodup string_dec (foreign_check others (List.map nv_pkg l)))
     end) (m_obs c)).
+
+(* ==== the wiring (Model/MultiArch.v) against the real NewMultiArch / ResolveWorld ====
+   multiarch stage: the architectures as handed to NewMultiArch, the index
+   objects each architecture's APK resolves with (identities assigned by the
+   harness: one per architecture and repository), what every context's ByArch
+   map looks like, every context's own ResolveWorld answer, and the answer of
+   BuildPackageLists. *)
+From Apko Require Export Generated.C14Wiring Model.MultiArch.
+
+Record wcase := {
+  w_archs : list string;
+  w_repos : list (string * list nindex);
+  w_world : list string;
+  w_transport : string;
+  w_byarch : list (string * list (string * string));           (* context -> its ByArch: (key, architecture of the APK stored there) *)
+  w_obs : list (string * option (list (string * string)));     (* context -> ResolveWorld: install list / None = error *)
+  w_lists : option (list (string * list (string * string)))    (* BuildPackageLists *)
+}.
+
+Definition nv_eqb (x y : string * string) : bool := String.eqb (fst x) (fst y) && String.eqb (snd x) (snd y).
+Definition repos_fn (l : list (string * list nindex)) (a : string) : list nindex :=
+  match alookup a l with Some ixs => ixs | None => [] end.
+Definition set_eqb {A} (eqb : A -> A -> bool) (a b : list A) : bool :=
+  forallb (fun x => existsb (eqb x) b) a && forallb (fun x => existsb (eqb x) a) b.
+Definition find_pkg (U : universe) (x : string * string) : option pkg :=
+  List.find (fun p => String.eqb (p_name p) (fst x) && String.eqb (p_version p) (snd x)) U.
+
+Definition compare_lists (m : res (list (string * string))) (o : option (list (string * string))) (iif : bool) : list string :=
+  match m, o with
+  | Ok l, Some l' => tag_if (negb (list_eqb nv_eqb l l'))
+                       (if iif then "mismatch:install-list/universe-with-install-if" else "mismatch:install-list")
+  | Err, None => []
+  | Ok _, None => ["mismatch:model-ok-impl-error"]
+  | Err, Some _ => ["mismatch:model-error-impl-ok"]
+  | Panic, _ => ["mismatch:model-panics"]
+  | OutOfFuel, _ => ["mismatch:model-out-of-fuel"]
+  end.
+
+Definition has_iif_pkgs (U : universe) : bool := existsb (fun p => match p_install_if p with [] => false | _ => true end) U.
+
+(* the validator of the property on one observed install list *)
+Definition foreign_tags (own : universe) (others : list universe) (l : list (string * string)) : list string :=
+  flat_map (fun x =>
+    match find_pkg own x with
+    | None => ["viol:member-not-from-own-repositories"]
+    | Some p => List.map (String.append "viol:") (foreign_check others [p])
+    end) l.
+
+Definition check_wiring (c : wcase) : list string :=
+  let repos := repos_fn (w_repos c) in
+  let ctx := contexts (w_archs c) in
+  let expected := by_arch_of ctx in
+  nodup string_dec (
+    tag_if (negb (set_eqb String.eqb ctx (List.map fst (w_obs c)))) "mismatch:contexts" ++
+    (* every context holds the one ByArch map the model computes: no sibling dropped, each under its key *)
+    flat_map (fun am =>
+      tag_if (Nat.ltb (List.length (snd am)) (List.length ctx)) "viol:sibling-dropped-from-byarch" ++
+      tag_if (negb (set_eqb (fun x y => nv_eqb x y) expected (snd am) && Nat.eqb (List.length expected) (List.length (snd am))))
+             "mismatch:byarch-map") (w_byarch c) ++
+    tag_if (negb (set_eqb String.eqb ctx (List.map fst (w_byarch c)))) "mismatch:byarch-contexts" ++
+    (* model = implementation per architecture; the validator on the implementation's list *)
+    flat_map (fun ao =>
+      let a := fst ao in
+      let own := flatten (repos a) in
+      compare_lists (resolve_arch repos ctx (w_world c) a) (snd ao) (has_iif_pkgs own) ++
+      match snd ao with
+      | None => []
+      | Some l =>
+          let others := List.map (fun b => flatten (repos b)) (List.filter (fun b => negb (String.eqb b a)) ctx) in
+          foreign_tags own others l
+      end) (w_obs c) ++
+    (* BuildPackageLists = all of them, or an error *)
+    match build_package_lists repos (w_archs c) ctx (w_world c), w_lists c with
+    | None, None => []
+    | Some m, Some o =>
+        tag_if (negb (Nat.eqb (List.length m) (List.length o) &&
+                      forallb (fun al => match alookup (fst al) o with
+                                         | Some l => list_eqb nv_eqb (snd al) l
+                                         | None => false
+                                         end) m)) "mismatch:build-package-lists"
+    | Some _, None => ["mismatch:build-package-lists/model-ok-impl-error"]
+    | None, Some _ => ["mismatch:build-package-lists/model-error-impl-ok"]
+    end).
+
+(* ==== histories of multi-architecture resolutions in one process (dqcache stage) ====
+   A pool of index objects (identity = position in the pool); every call hands
+   GetPackagesWithDependencies a map key -> objects of the pool, on a resolver
+   built from [hc_own].  Observed per call: the answer, the set stored under
+   the call's key right afterwards, and (uncached, through a hook) the result
+   of disqualifyDifference on the same map with its messages. *)
+Record hcall := {
+  hc_groups : list (string * list nat);
+  hc_own : list nat;
+  hc_world : list string;
+  hc_obs : option (list (string * string));
+  hc_entry : option (list (nat * nat));
+  hc_fresh : list ((nat * nat) * string)
+}.
+Record hcase := { h_pool : list nindex; h_calls : list hcall }.
+Definition HC := Build_hcall.
+
+Definition pool_ix (pool : list nindex) (i : nat) : nindex := nth i pool (NI i "" []).
+Definition groups_map (pool : list nindex) (g : list (string * list nat)) : arch_map :=
+  List.map (fun e => (fst e, List.map (pool_ix pool) (snd e))) g.
+Definition nat_list_eqb := list_eqb Nat.eqb.
+Definition group_eqb (x y : string * list nat) : bool := String.eqb (fst x) (fst y) && nat_list_eqb (snd x) (snd y).
+
+(* the package behind an object of the map, with the keys of the architectures that list its index *)
+Definition obj_pkg (pool : list nindex) (o : nat * nat) : pkg := nth (snd o) (ni_pkgs (pool_ix pool (fst o))) dummy_pkg.
+Definition obj_keys (g : list (string * list nat)) (o : nat * nat) : list string :=
+  List.map fst (List.filter (fun e => existsb (Nat.eqb (fst o)) (snd e)) g).
+
+Definition names_distinct (pool : list nindex) (g : list (string * list nat)) : bool :=
+  nodup_b (List.map (fun i => ni_name (pool_ix pool i)) (List.concat (List.map snd g))).
+
+Definition check_call (pool : list nindex) (earlier : list hcall) (cache : dq_cache) (h : hcall) : dq_cache * list string :=
+  let aa := groups_map pool (hc_groups h) in
+  let own := List.map (pool_ix pool) (hc_own h) in
+  let U := flatten own in
+  let '(cache', d) := dq_cache_get cache aa in
+  let model := resolve U (hc_world h) (own_dq own d) in
+  (* was this call's key used before by another grouping? (the mechanism of finding C08-F2) *)
+  let stale := existsb (fun e => nat_list_eqb (dq_cache_key (groups_map pool (hc_groups e))) (dq_cache_key aa) &&
+                                 negb (set_eqb group_eqb (hc_groups e) (hc_groups h))) earlier in
+  let self_keys := List.map fst (List.filter (fun e => nat_list_eqb (snd e) (hc_own h)) (hc_groups h)) in
+  let others := List.map (fun e => flatten (snd e)) (List.filter (fun e => negb (mem_str (fst e) self_keys)) aa) in
+  (cache',
+   tag_if (negb (names_distinct pool (hc_groups h))) "mismatch:harness-equal-index-names" ++
+   tag_if (negb (set_eqb obj_eqb (List.map fst (hc_fresh h)) (dq_objs aa))) "mismatch:dq-difference" ++
+   tag_if (negb (forallb (fun om =>
+             existsb (fun k => mem_str (snd om) (dq_reasons aa k (obj_pkg pool (fst om)))) (obj_keys (hc_groups h) (fst om)))
+             (hc_fresh h))) "mismatch:dq-message" ++
+   tag_if (negb (match hc_entry h with Some e => set_eqb obj_eqb e d | None => false end)) "mismatch:dq-cache-entry" ++
+   compare_lists (observe_world own model) (hc_obs h) (has_iif_pkgs U) ++
+   match hc_obs h with
+   | None => []
+   | Some l =>
+       if Nat.leb 2 (List.length (hc_groups h)) then
+         List.map (fun t => if stale && String.eqb t "viol:foreign-version" then "viol:dq-cache-key-ignores-grouping" else t)
+                  (foreign_tags U others l)
+       else
+         (* at most one architecture: the answer is the plain resolution *)
+         match observe_world own (resolve U (hc_world h) []) with
+         | Ok p => tag_if (negb (list_eqb nv_eqb p l))
+                     (if stale then "viol:dq-cache-key-ignores-grouping" else "viol:single-arch-affected")
+         | _ => [if stale then "viol:dq-cache-key-ignores-grouping" else "viol:single-arch-affected"]
+         end
+   end ++
+   (* at most one architecture and an error where the plain resolution succeeds *)
+   match hc_obs h, Nat.leb 2 (List.length (hc_groups h)), resolve U (hc_world h) [] with
+   | None, false, Ok _ => [if stale then "viol:dq-cache-key-ignores-grouping" else "viol:single-arch-affected"]
+   | _, _, _ => []
+   end).
+
+Fixpoint check_calls (pool : list nindex) (earlier : list hcall) (cache : dq_cache) (l : list hcall) : list string :=
+  match l with
+  | [] => []
+  | h :: t => let '(cache', tags) := check_call pool earlier cache h in
+              tags ++ check_calls pool (earlier ++ [h]) cache' t
+  end.
+
+Definition check_history (c : hcase) : list string := nodup string_dec (check_calls (h_pool c) [] [] (h_calls c)).
